@@ -1,5 +1,107 @@
+(* C42 — buffered file wrappers preserve stream content and line structure.
+   Property statements only; every proof is `exact <lemma from Proofs/C42_proofs.v>`.
+   cbf = BufferedFile (binary mode) over the channel-like stream `cstream`, whose read-chunk
+   oracle `roracle` and partial-write oracle `woracle` are ARBITRARY lists (all theorems quantify
+   over the whole state, hence over every chunking).  `logical f` = _rbuffer ++ bytes the stream
+   has not delivered yet.  `fuel` bounds the model's loops; the hypotheses give a sufficient
+   amount, so no result below is the OutOfFuel artefact. *)
 From PV Require Import Bytes C42 C42_proofs.
 Open Scope Z_scope.
-Theorem C42_placeholder : upto_lf [] = [].
-Proof. exact placeholder. Qed.
-Print Assumptions C42_placeholder.
+
+(* any mix of read(n), read(), readline(size), readlines(hint), next -- interleaved with writes,
+   flushes, closes and calls the mode forbids -- returns, concatenated, exactly the prefix of the
+   stream that was consumed: nothing lost, duplicated or reordered, for every chunking *)
+Theorem C42_read_stream :
+  forall (fuel : nat) (ops : list op) (f : cbf) (rs : list oresult) (f' : cbf),
+    (length (logical f) < fuel)%nat -> 0 < bufsize f ->
+    run_ops fuel f ops = (rs, f') ->
+    logical f = concat (map result_bytes rs) ++ logical f'.
+Proof. exact run_ops_read_stream. Qed.
+Print Assumptions C42_read_stream.
+
+(* each individual call returns exactly the specified next bytes *)
+Theorem C42_read_exact :
+  forall (fuel : nat) (f : cbf) (n : Z),
+    (length (sdata (strm f)) < fuel)%nat -> 0 < bufsize f -> readable f -> 0 <= n ->
+    exists f', bf_read c_sread fuel f (Some n) = (Ok (take n (logical f)), f') /\
+               logical f = take n (logical f) ++ logical f'.
+Proof. exact p_read_exact. Qed.
+Print Assumptions C42_read_exact.
+
+Theorem C42_read_all_exact :
+  forall (fuel : nat) (f : cbf),
+    (length (sdata (strm f)) < fuel)%nat -> readable f ->
+    exists f', bf_read c_sread fuel f None = (Ok (logical f), f') /\ logical f' = [].
+Proof. exact p_read_all_exact. Qed.
+Print Assumptions C42_read_all_exact.
+
+Theorem C42_readline_exact :
+  forall (fuel : nat) (f : cbf) (size : option Z),
+    (length (sdata (strm f)) < fuel)%nat -> 0 < bufsize f -> readable f ->
+    exists f', bf_readline c_sread fuel f size = (Ok (line_spec size (logical f)), f') /\
+               logical f = line_spec size (logical f) ++ logical f'.
+Proof. exact p_readline_exact. Qed.
+Print Assumptions C42_readline_exact.
+
+(* a returned line (= line_spec size L by C42_readline_exact) is a prefix of the stream that ends
+   at the FIRST newline, or is cut at `size` without containing a newline, or runs to EOF without
+   a newline; and it never exceeds `size` *)
+Theorem C42_lines :
+  forall (size : option Z) (Lg : list Z),
+    let r := line_spec size Lg in
+    exists rest, Lg = r ++ rest /\
+      ((exists body, r = body ++ [LF] /\ ~ In LF body) \/
+       (~ In LF r /\ sized size = true /\ zlen r = szof size) \/
+       (~ In LF r /\ rest = [])) /\
+      (sized size = true -> zlen r <= szof size).
+Proof. exact line_spec_structure. Qed.
+Print Assumptions C42_lines.
+
+(* bytes delivered to the stream ++ write buffer = all data accepted by write(), in order, after
+   every op sequence and for every partial-write behaviour of the stream (_write_all loops) *)
+Theorem C42_write_complete :
+  forall (fuel : nat) (ops : list op) (f : cbf) (rs : list oresult) (f' : cbf),
+    (length (wbuf f) + wtotal ops < fuel)%nat -> winv f ->
+    run_ops fuel f ops = (rs, f') ->
+    delivered (strm f') ++ wbuf f' = (delivered (strm f) ++ wbuf f) ++ accepted ops rs.
+Proof. exact p_write_complete. Qed.
+Print Assumptions C42_write_complete.
+
+(* flush / close succeed and leave the buffer empty: with C42_write_complete, everything written
+   has then reached the stream *)
+Theorem C42_flush_empties :
+  forall (fuel : nat) (f : cbf) (o : op) (r : oresult) (f' : cbf),
+    (o = OFlush \/ o = OClose) -> (length (wbuf f) < fuel)%nat -> winv f ->
+    step fuel f o = (r, f') ->
+    r = RNone /\ wbuf f' = [] /\ delivered (strm f') = delivered (strm f) ++ wbuf f.
+Proof. exact p_flush_empties. Qed.
+Print Assumptions C42_flush_empties.
+
+(* line-buffered mode: after every call the buffer holds no newline, i.e. (with
+   C42_write_complete) everything through the last newline written has been delivered *)
+Theorem C42_line_buffered :
+  forall (fuel : nat) (ops : list op) (f : cbf) (rs : list oresult) (f' : cbf),
+    (length (wbuf f) + wtotal ops < fuel)%nat -> winv f ->
+    fl_buffered f = true -> fl_linebuf f = true -> has_lf (wbuf f) = false ->
+    run_ops fuel f ops = (rs, f') -> has_lf (wbuf f') = false.
+Proof. exact run_ops_line_buffered. Qed.
+Print Assumptions C42_line_buffered.
+
+(* the hypotheses hold for every freshly opened file (every mode, bufsize, stream and oracles) *)
+Theorem C42_initial_state :
+  forall (hr hw ha hp : bool) (bufsz size0 : Z) (s : cstream),
+    let f := set_mode hr hw ha hp bufsz size0 s in
+    0 < bufsize f /\ winv f /\ has_lf (wbuf f) = false /\ logical f = sdata s.
+Proof. exact p_initial_state. Qed.
+Print Assumptions C42_initial_state.
+
+(* non-vacuity: a concrete run -- chunked reads of 1..2 bytes, partial writes of 1..3 bytes,
+   line-buffered "r+" file -- meets the hypotheses and shows the stated results *)
+Example C42_example :
+  let f0 : cbf := set_mode true false false true 1 0 (mkcs [97;98;10;99;100;10;101] [1;2;1;1] [1;3;2] []) in
+  let ops := [OReadline None; ORead 1; OWrite [120;10;121]; OReadline (Some 1); OReadAll; OFlush] in
+  (length (logical f0) < 20)%nat /\ (length (wbuf f0) + wtotal ops < 20)%nat /\
+  fst (run_ops 20 f0 ops) =
+    [RBytes [97;98;10]; RBytes [99]; RNone; RBytes [100]; RBytes [10;101]; RNone] /\
+  delivered (strm (snd (run_ops 20 f0 ops))) = [120;10;121].
+Proof. vm_compute. repeat split; lia. Qed.
